@@ -17,6 +17,64 @@ def load(pid):
     return importlib.import_module(f"p_{pid.lower()}")
 
 
+# The environment sweep: the same check, on a sample of its inputs, in child interpreters started under other process
+# environments (the library reads none of these variables; a change that makes it depend on one is a change of what
+# every listed property says).  Children run in light mode and are judged by TLC exactly like the main run.
+SWEEP_ENVS = {
+    "colour-and-size-variables+optimised-bytecode": {
+        "NO_COLOR": "1", "CLICOLOR": "0", "CLICOLOR_FORCE": "1", "FORCE_COLOR": "1", "COLORTERM": "truecolor",
+        "LINES": "37", "COLUMNS": "91", "PYTHONOPTIMIZE": "1"},
+    "warnings-as-errors+other-hash-seed": {
+        "PYTHONHASHSEED": "4242", "VERIF_WARNINGS_ERROR": "1"},
+}
+
+
+def run_with_sweep(pid, mod, tier):
+    import subprocess
+    from concurrent.futures import ThreadPoolExecutor
+
+    def child(name):
+        env = dict(os.environ, VERIF_LIGHT="1")
+        env.update(SWEEP_ENVS[name])
+        for var in getattr(mod.CHECK, "sweep_exclude", ()):
+            env.pop(var, None)
+        p = subprocess.run([sys.executable, os.path.abspath(__file__), pid, "--tier", "quick"], env=env,
+                           capture_output=True, text=True, timeout=3000)
+        return name, p.returncode, p.stdout + p.stderr
+    with ThreadPoolExecutor(max_workers=len(SWEEP_ENVS)) as ex:
+        futs = [ex.submit(child, n) for n in SWEEP_ENVS]
+        rc = mod.CHECK.run(tier)
+        results = [f.result() for f in futs]
+    # what the sweep covered goes into the evidence file the main run wrote
+    try:
+        evp = common.EVID / f"{pid}.json"
+        ev = json.loads(evp.read_text())
+        sweep = []
+        for name, crc, out in results:
+            tail = [l for l in out.splitlines() if l.startswith(pid)]
+            sweep.append({"environment": {k: v for k, v in SWEEP_ENVS[name].items() if k not in getattr(mod.CHECK, "sweep_exclude", ())},
+                          "exit_status": crc, "summary": tail[-1] if tail else ""})
+        ev["coverage"]["environment_sweep"] = sweep
+        evp.write_text(json.dumps(ev, indent=1, sort_keys=True) + "\n")
+    except Exception:  # noqa - the evidence file is missing only when the main run failed
+        pass
+    for name, crc, out in results:
+        lines = out.splitlines()
+        if crc == 1:
+            print(f"under the process environment [{name}] ({SWEEP_ENVS[name]}):")
+            for l in lines:
+                if l.startswith("VIOLATION") or l.startswith("  signature=") or l.startswith("KNOWN-FINDING"):
+                    print(l)
+            rc = max(rc, 1) if rc != 2 else rc
+        elif crc != 0:
+            print(f"MACHINERY-FAILURE: environment sweep [{name}] ended with status {crc}:\n" + "\n".join(lines[-12:]))
+            rc = 2
+        else:
+            tail = [l for l in lines if l.startswith(pid)]
+            print(f"  environment sweep [{name}]: " + (tail[-1] if tail else "ok"))
+    return rc
+
+
 def main():
     ap = argparse.ArgumentParser()
     ap.add_argument("what")
@@ -25,6 +83,10 @@ def main():
     ap.add_argument("--mutants", action="store_true")
     args = ap.parse_args()
     what = args.what
+    if os.environ.get("VERIF_WARNINGS_ERROR") == "1":
+        import warnings
+        common.import_repo()          # import first: only warnings raised while the library is *used* count
+        warnings.simplefilter("error")
     try:
         if what == "setup":
             import setup_check
@@ -52,7 +114,9 @@ def main():
         mod = load(pid)
         if args.replay:
             return mod.CHECK.replay(args.replay)
-        return mod.CHECK.run(args.tier)
+        if common.LIGHT or os.environ.get("VERIF_NO_SWEEP") == "1":
+            return mod.CHECK.run(args.tier)
+        return run_with_sweep(pid, mod, args.tier)
     except common.Machinery as e:
         print(f"MACHINERY-FAILURE: {e}")
         return 2
